@@ -33,6 +33,11 @@ Section Transform.
     mkV3 (nabs (m00 m * x) + nabs (m01 m * y) + nabs (m02 m * z) + nabs (m03 m))
          (nabs (m10 m * x) + nabs (m11 m * y) + nabs (m12 m * z) + nabs (m13 m))
          (nabs (m20 m * x) + nabs (m21 m * y) + nabs (m22 m * z) + nabs (m23 m)).
+  (** linear part only (no translation column): carries an input error through the transform *)
+  Definition mul3x3_abs (m : M4) (x y z : K) : V :=
+    mkV3 (nabs (m00 m * x) + nabs (m01 m * y) + nabs (m02 m * z))
+         (nabs (m10 m * x) + nabs (m11 m * y) + nabs (m12 m * z))
+         (nabs (m20 m * x) + nabs (m21 m * y) + nabs (m22 m * z)).
   Definition mul4x4 (a b : M4) : M4 :=
     let e (r0 r1 r2 r3 c0 c1 c2 c3 : K) := r0 * c0 + r1 * c1 + r2 * c2 + r3 * c3 in
     mkM4
@@ -91,17 +96,19 @@ Section Transform.
   Definition tr_vec (t : Tr) (v : V) : V := mul4x4vec (elements t) v.
   Definition tr_inv_vec (t : Tr) (v : V) : V := mul4x4vec (inv_elements t) v.
 
+  (** points: four roundings per row, gamma(4) (fix: 34af114); vectors: three, gamma(3) *)
   Definition pt_with_error (m : M4) (p : V) : V * V :=
-    (mul4x4point m p, vscale (mul4x4_abs m (vx p) (vy p) (vz p)) (ngamma 3)).
+    (mul4x4point m p, vscale (mul4x4_abs m (vx p) (vy p) (vz p)) (ngamma 4)).
+  (** the incoming error goes through the linear part only (fix: 5455df2) *)
   Definition pt_propagate_error (m : M4) (p e : V) : V * V :=
     let '(ret, err2) := pt_with_error m p in
-    let err1 := vscale (mul4x4_abs m (vx e) (vy e) (vz e)) (n1 + ngamma 3) in
+    let err1 := vscale (mul3x3_abs m (vx e) (vy e) (vz e)) (n1 + ngamma 3) in
     (ret, vadd err1 err2).
   Definition vec_with_error (m : M4) (v : V) : V * V :=
     (mul4x4vec m v, vscale (mul4x4_abs m (vx v) (vy v) (vz v)) (ngamma 3)).
   Definition vec_propagate_error (m : M4) (v e : V) : V * V :=
     let '(ret, err2) := vec_with_error m v in
-    let err1 := vscale (mul4x4_abs m (vx e) (vy e) (vz e)) (n1 + ngamma 3) in
+    let err1 := vscale (mul3x3_abs m (vx e) (vy e) (vz e)) (n1 + ngamma 3) in
     (ret, vadd err1 err2).
 
   Definition normal_by (m : M4) (v : V) : V :=
